@@ -788,6 +788,16 @@ def check_fused_reductions(idx, run):
             "is_reduction", "reduction_arg", "red_args")) and
         any(isinstance(b, ast.Raise) for b in ast.walk(st))
         for st in ast.walk(func))
+    # the guard runs over every kernel of the loop
+    if guarded:
+        loops = [f for f in ast.walk(func) if isinstance(f, ast.For) and any(
+            isinstance(st, ast.If) and any(x in ast.unparse(st.test) for x in
+                                           ("is_reduction", "reduction_arg"))
+            for st in ast.walk(f))]
+        guarded = (not loops) or any(
+            "kernels()" in ast.unparse(f.iter) or "walk(" in
+            ast.unparse(f.iter) or "coded_kernels()" in ast.unparse(f.iter)
+            for f in loops)
     run.check("C20.R8", guarded,
               "Dynamo0p3RedundantComputationTrans.validate",
               "a reduction in the loop is refused",
